@@ -378,7 +378,7 @@ static void item_fn(uint64_t idx)
 	case 2: { size_t cs[][2] = { {1, 0}, {2, 0}, {3, 0}, {sl / 2, 0}, {sl - 1, 0}, {1, 2}, {2, sl - 1}, {1, sl / 2}, {13, 14} };
 		for (size_t i = 0; i < sizeof cs / sizeof cs[0]; i++) { snprintf(g_ctx, sizeof g_ctx, "%s cuts=%zu,%zu len=%zu", d, cs[i][0], cs[i][1], w.n); run_exec(s, it->mode, &w, w.n, cs[i][0], cs[i][1], 0); } break; }
 	case 3: for (size_t cut = 1; cut < sl; cut++) { snprintf(g_ctx, sizeof g_ctx, "%s cut=%zu len=%zu", d, cut, w.n); run_exec(s, it->mode, &w, w.n, cut, 0, 0); } break;
-	case 5: for (size_t step = sl / 300 + 1, c1 = 1; c1 < sl - 1; c1 += step) for (size_t c2 = c1 + 1; c2 < sl; c2 += step) { snprintf(g_ctx, sizeof g_ctx, "%s cuts=%zu,%zu len=%zu", d, c1, c2, w.n); run_exec(s, it->mode, &w, w.n, c1, c2, 0); } MC_COUNT("items_all_tcp_cut_pairs"); break;
+	case 5: for (size_t step = sl / 120 + 1, c1 = 1; c1 < sl - 1; c1 += step) for (size_t c2 = c1 + 1; c2 < sl; c2 += step) { snprintf(g_ctx, sizeof g_ctx, "%s cuts=%zu,%zu len=%zu", d, c1, c2, w.n); run_exec(s, it->mode, &w, w.n, c1, c2, 0); } MC_COUNT("items_all_tcp_cut_pairs"); break;
 	case 4: snprintf(g_ctx, sizeof g_ctx, "%s pipelined len=%zu", d, w.n); run_exec(s, it->mode, &w, w.n, 0, 0, 1);
 		snprintf(g_ctx, sizeof g_ctx, "%s pipelined cut=%zu len=%zu", d, sl + 1, w.n); run_exec(s, it->mode, &w, w.n, sl + 1, 0, 1);
 		snprintf(g_ctx, sizeof g_ctx, "%s pipelined cut=%zu len=%zu", d, sl - 1, w.n); run_exec(s, it->mode, &w, w.n, sl - 1, sl + 2, 1); break;
